@@ -3,7 +3,8 @@
 
     Model: Model/Search.v (evaluateTokens & co., HandleSearch, uid.handleUIDSearch),
     Model/SearchText.v (keys that read the text).  Spec: Spec/Search.v.
-    [wf_prog]: the program is valid RFC 3501 syntax.  [classify ks mb = None]:
+    [wf_prog]: the program is valid RFC 3501 syntax.  [mb_ok]: the flags of the
+    client's view are non-empty words without white space.  [classify ks mb = None]:
     the program/mailbox is outside every listed class of Model/SearchClass.v;
     each class has a [c19_refuted_...] witness below. *)
 From Coq Require Import String Ascii List Bool Arith ZArith Sorted.
@@ -17,7 +18,7 @@ Local Open Scope Z_scope.
     of the messages that satisfy all keys (and the specification asks for a
     result, not an error). *)
 Theorem c19_search_exact : forall (ks : list key) (mb : list smsg),
-  wf_prog ks = true -> classify ks mb = None ->
+  wf_prog ks = true -> mb_ok mb = true -> classify ks mb = None ->
   search (to_msgs mb) (print_prog ks) = Some (spec_search_list ks mb)
   /\ spec_search ks mb = SOk (spec_search_list ks mb).
 Proof. exact search_exact. Qed.
@@ -25,7 +26,7 @@ Print Assumptions c19_search_exact.
 
 (** the same through HandleSearch, on the command line as connection.go splits it *)
 Theorem c19_search_cmd_exact : forall (tag cmd : str) (ks : list key) (mb : list smsg),
-  wf_prog ks = true -> classify_line ks mb = None ->
+  wf_prog ks = true -> mb_ok mb = true -> classify_line ks mb = None ->
   str_eqb (to_upper (nth 0 (fields (print_prog ks)) [])) (S_ "CHARSET") = false ->
   search_cmd (tag :: cmd :: fields (print_prog ks)) (to_msgs mb) = ROk (spec_search_list ks mb).
 Proof. exact search_cmd_exact. Qed.
@@ -98,9 +99,13 @@ Print Assumptions c19_refuted_not_or_arity.
 Theorem c19_refuted_unknown_key : exists ks mb, refutes CUnknownKey ks mb.
 Proof. exact refuted_unknown_key. Qed.
 Print Assumptions c19_refuted_unknown_key.
-Theorem c19_refuted_substring_flag : exists ks mb, refutes CSubstringFlag ks mb.
-Proof. exact refuted_substring_flag. Qed.
-Print Assumptions c19_refuted_substring_flag.
+(** repaired by 378938d (flags compared as whole words): the former
+    substring_flag witness KEYWORD foo / flag foobar now meets the specification *)
+Example c19_substring_flag_repaired :
+  contains (S_ "\Seen foobar") (S_ "foo") = true /\ has_flag_go (S_ "\Seen foobar") (S_ "foo") = false
+  /\ wf_prog [KKeyword (S_ "foo")] = true /\ classify_line [KKeyword (S_ "foo")] wit_mb = None
+  /\ reply_ok (search_line [KKeyword (S_ "foo")] wit_mb) (spec_search [KKeyword (S_ "foo")] wit_mb) = true.
+Proof. exact substring_flag_repaired. Qed.
 Theorem c19_refuted_text_atom_repeated_field : exists ks mb, refutes CTextAtom ks mb.
 Proof. exact refuted_text_atom_repeated_field. Qed.
 Print Assumptions c19_refuted_text_atom_repeated_field.
@@ -129,7 +134,7 @@ Definition ex_prog : list key :=
     KUid [SRange (SNum (S_ "1")) (SNum (S_ "9"))]; KDate false CSince (S_ "1", 1, S_ "2020");
     KLarger (S_ "10"); KText (S_ "body t") ].
 Example c19_fragment_example :
-  wf_prog ex_prog = true /\ classify_line ex_prog wit_mb = None
+  wf_prog ex_prog = true /\ mb_ok wit_mb = true /\ classify_line ex_prog wit_mb = None
   /\ str_eqb (to_upper (nth 0 (fields (print_prog ex_prog)) [])) (S_ "CHARSET") = false
   /\ print_prog ex_prog = S_ "NOT SEEN OR 2:3 KEYWORD work UID 1:9 SINCE 1-Jan-2020 LARGER 10 TEXT ""body t"""
   /\ spec_search_list ex_prog wit_mb = [2; 3].
